@@ -29,6 +29,7 @@ func TestSim(t *testing.T) {
 		{Name: "coordinators", Weight: 4, Run: runCoordinators},
 		{Name: "shardid", Weight: 1, Run: runShardID},
 		{Name: "write-routing", Weight: 1, Run: runWriteRouting},
+		{Name: "liaison-queue-targets", Weight: 1, Run: runQueueTargets},
 	})
 }
 
